@@ -10,7 +10,7 @@ import z3
 LIBM = {
     "exp": math.exp, "log": math.log, "log10": math.log10, "sqrt": math.sqrt, "cbrt": lambda x: math.copysign(abs(x) ** (1 / 3), x),
     "erf": math.erf, "erfc": math.erfc, "tanh": math.tanh, "sinh": math.sinh, "cosh": math.cosh, "sin": math.sin, "cos": math.cos,
-    "tan": math.tan, "atan": math.atan, "log2": math.log2, "floor": math.floor, "ceil": math.ceil,
+    "tan": math.tan, "atan": math.atan, "asin": math.asin, "acos": math.acos, "asinh": math.asinh, "acosh": math.acosh, "atanh": math.atanh, "log2": math.log2, "floor": math.floor, "ceil": math.ceil,
     "recip": lambda x: 1.0 / x, "pow": math.pow, "atan2": math.atan2, "fmod": math.fmod, "pow10": lambda x: 10.0 ** x,
 }
 
